@@ -106,6 +106,16 @@ an int64 vector, except that the empty display is a float64 vector (numpy's defa
 def shapeArray (xs : List Int) : Val :=
   if xs.isEmpty then .arr DType.float64 [0] [] else Val.ofInts xs
 
+/-- `np.array([*start, np.prod(middle), *end])` of `calc_flatten_output`: `np.prod` of an
+unsigned array is uint64, which makes the whole result uint64; otherwise int64. -/
+def flattenArray (input : Val) (xs : List Int) : Val :=
+  match input with
+  | .arr dt _ _ =>
+      if dt.kind == .uint && !xs.isEmpty then
+        .arr { kind := .uint, size := 8 } [xs.length] (encodeInts { kind := .uint, size := 8 } xs)
+      else shapeArray xs
+  | _ => shapeArray xs
+
 /-- `calc_flatten_output` on an integer shape container. -/
 def calcFlattenOutput (inputShape : List Int) (startDim endDim : Int) : List Int :=
   Generated.calcFlattenOutput inputShape startDim endDim
